@@ -13,7 +13,8 @@ from pyvc.core import LoopSpec, V
 from pyvc.heap import B, I, NONE, R
 from pyvc.heapworld import Clause, Outcome
 from pyvc.seqworld import CH, PAR, QSpec, Registry, SeqR
-from pyvc.textworld import (ATTR, HAS, NONE_U, OFSTR, ROOT, SEP, SPLIT, STR, TEXTWORLD, UPPER, CmpFn, SeqStr, Str, U, vstr)
+from pyvc.textworld import (ATTR, BOR, COMPILE, HAS, IGNORECASE, KEY, KEYI, KEYP, KS, MATCHES, NONE_U, OFSTR, RE, REESC, ROOT, SEP,
+                            SPLIT, STR, TEXTWORLD, UPPER, CmpFn, SeqStr, Str, U, vstr)
 
 REL = "anytree/resolver.py"
 P7 = {"C07"}
@@ -97,6 +98,42 @@ def lemma_obligations():
              fc_sticky(kids, j, k + 1, nm)),
             ("LEMMA:failed-status-is-sticky/base", [], sticky(n0, ps, j, j)),
             ("LEMMA:failed-status-is-sticky/step", d_G(n0, ps, k) + [sticky(n0, ps, j, k), k < Length(ps), j <= k], sticky(n0, ps, j, k + 1))]
+
+
+P8 = {"C08"}
+TRANS = Function("TRANS", Str, I, Str)         # translation of the pattern prefix pat[:j] into regex syntax
+GLOBRES = Function("GLOBRES", R, SeqStr, SeqR)  # result list of __glob (its contract is only bounded so far)
+
+
+def d_TRANS(pat, j):
+    from z3 import SubString, Concat
+    ch = SubString(pat, j, 1)
+    return [TRANS(pat, 0) == S(""),
+            Implies(And(0 <= j, j < Length(pat)),
+                    TRANS(pat, j + 1) == Concat(TRANS(pat, j), If(ch == S("*"), S(".*"), If(ch == S("?"), S("."), REESC(ch)))))]
+
+
+def trf(pat):
+    from z3 import Concat
+    return Concat(S("(?ms)"), TRANS(pat, Length(pat)), S("\\Z"))
+
+
+def flags_of(ic):
+    return If(ic, IGNORECASE, 0)
+
+
+def wm(name, pat, ic):
+    """the wildcard match the code performs: anchored regex built by __translate, IGNORECASE iff ignorecase"""
+    return MATCHES(COMPILE(trf(pat), flags_of(ic)), name)
+
+
+def cache_inv(cache):
+    from z3 import Select
+    dom, val, n = cache
+    k = Const("ck", KS)
+    return [Clause("cache/every-entry-is-the-compiled-translation-of-its-own-key",
+                   ForAll([k], Implies(Select(dom, k), Select(val, k) == COMPILE(trf(KEYP(k)), flags_of(KEYI(k))))), P8),
+            Clause("cache/size-nonneg", n >= 0, P8)]
 
 
 def start_abs(c):
@@ -246,4 +283,81 @@ def build():
     ], loops={0: LoopSpec(get_inv, hints=get_hints)}, props=P7,
         hints=lambda c: CMP_AX + d_G(gc(c)[0], gc(c)[1], IntVal(0))[:2] + [ROOT(c.node) != NONE, PAR(ROOT(c.node)) == NONE]))
     reg.methods[("Resolver", "get")] = sp
+    build_glob(reg, specs, qs, SELF, fields)
     return reg, specs
+
+
+def build_glob(reg, specs, qs, SELF, fields):
+    from z3 import Array, Contains, Select
+    import ast as _ast
+    from pyvc import frontend
+    a_, b_ = Const("ma", Str), Const("mb", Str)
+    MATCH_AX = [ForAll([a_, b_], CMPAPP(MATCH_CONST, a_, b_) == wm(a_, b_, F.ignorecase))]
+    try:
+        mx = frontend.module_assign(REL, "_MAXCACHE")
+        maxcache = mx.value if isinstance(mx, _ast.Constant) and isinstance(mx.value, int) else None
+    except frontend.StructError:
+        maxcache = None
+    reg.globals = {"_MAXCACHE": V("int", IntVal(maxcache if maxcache is not None else 20))}
+    reg.classes["Resolver"] = None
+    # ------------------------------------------------------------------ is_wildcard, __translate
+    sp = qs(QSpec(reg, REL, "Resolver", "is_wildcard", "static", [("path", "str")], lambda c: [], [
+        Outcome("return", "return", lambda c, S1, r: [], res="bool", mods=(),
+                value=lambda c: Or(Contains(c.path, S("?")), Contains(c.path, S("*"))))], props=P8))
+    reg.statics[("Resolver", "is_wildcard")] = sp
+    sp = qs(QSpec(reg, REL, "Resolver", "__translate", "static", [("pat", "str")], lambda c: [], [
+        Outcome("return", "return", lambda c, S1, r: [], res="str", mods=(), value=lambda c: trf(c.pat))],
+        loops={0: LoopSpec(lambda L: [("translated-so-far", L.t("re_pat") == TRANS(L.fn.pat, L.i))],
+                           hints=lambda L: d_TRANS(L.fn.pat, L.i), vars_kinds={"re_pat": "str"})}, props=P8,
+        hints=lambda c: d_TRANS(c.pat, IntVal(0))[:1]))
+    reg.statics[("Resolver", "_Resolver__translate")] = sp
+
+    # ------------------------------------------------------------------ __match: the shared cache is transparent
+    def m_req(c):
+        cache = (Array("cache_dom", KS, B), Array("cache_val", KS, RE), Int("cache_n"))
+        c.__dict__["cache0"] = cache
+        return cache_inv(cache)
+
+    def m_post(c, S1, r):
+        cache1 = c.final_path.extra["cache"]
+        return ([Clause("result-is-the-wildcard-match-for-this-resolvers-own-ignorecase (whatever the cache held)",
+                        r.t == wm(c.name, c.pat, F.ignorecase), P8)] + cache_inv(cache1))
+    sp = qs(QSpec(reg, REL, "Resolver", "__match", "method", [SELF, ("name", "str"), ("pat", "str")], m_req, [
+        Outcome("return", "return", m_post, res="bool", mods=())], props=P8))
+    sp.init_extra = lambda c: {"cache": c.cache0}
+    reg.methods[("Resolver", "_Resolver__match")] = sp
+
+    # ------------------------------------------------------------------ glob = __start with the wildcard matcher, then __glob
+    gl = QSpec(reg, REL, "Resolver", "__glob", "method", [SELF, ("node", "ref"), ("parts", "strlist")],
+               lambda c: [Clause("node-is-not-None", c.node != NONE)], [
+        Outcome("return", "return", lambda c, S1, r: [], res="qseq", mods=(), value=lambda c: GLOBRES(c.node, c.parts)),
+        Outcome("ResolverError", "raise", lambda c, S1, r: [Clause("strict-only", Not(F.relax))], exc="ResolverError", mods=()),
+        Outcome("ChildResolverError", "raise", lambda c, S1, r: [Clause("strict-only", Not(F.relax))], exc="ChildResolverError", mods=()),
+        Outcome("RootResolverError", "raise", lambda c, S1, r: [Clause("strict-only", Not(F.relax))], exc="RootResolverError", mods=()),
+    ], props=P8)
+    gl.world = TEXTWORLD
+    reg.methods[("Resolver", "_Resolver__glob")] = gl      # assumed here (covered by the bounded stand-in), not verified
+
+    def gstart(c):
+        ps = start_parts(c)
+        ab = start_abs(c)
+        n0 = If(ab, ROOT(c.node), c.node)
+        p0 = If(ab, Extract(ps, 2, Length(ps) - 2), ps)
+        missing = And(ab, Length(ps[1]) == 0)
+        unknown = And(ab, Not(missing), Not(wm(nameof(ROOT(c.node)), ps[1], F.ignorecase)))
+        return n0, p0, Or(missing, unknown)
+    sp = qs(QSpec(reg, REL, "Resolver", "glob", "method", [SELF, ("node", "ref"), ("path", "str")],
+                  lambda c: [Clause("node-is-not-None", c.node != NONE), Clause("separator-non-empty", Length(SEP(c.node)) > 0)], [
+        Outcome("result", "return", lambda c, S1, r: [Clause("the-matches-from-the-start-node-for-the-remaining-components",
+                                                                r.t == GLOBRES(gstart(c)[0], gstart(c)[1]))], res="qseq", mods=(),
+                when=lambda c: Not(gstart(c)[2])),
+        Outcome("empty:relax", "return", lambda c, S1, r: [Clause("is-empty", Length(r.t) == 0)], res="qseq", mods=(),
+                when=lambda c: And(gstart(c)[2], F.relax)),
+        Outcome("ResolverError:root-component", "raise", lambda c, S1, r: [], exc="ResolverError", mods=(),
+                when=lambda c: And(gstart(c)[2], Not(F.relax)), site="explicit*"),
+        Outcome("ResolverError:from-matching", "raise", lambda c, S1, r: [Clause("strict-only", Not(F.relax))], exc="ResolverError", mods=(), user=True,
+                site="call:*"),
+        Outcome("ChildResolverError", "raise", lambda c, S1, r: [Clause("strict-only", Not(F.relax))], exc="ChildResolverError", mods=(), user=True),
+        Outcome("RootResolverError", "raise", lambda c, S1, r: [Clause("strict-only", Not(F.relax))], exc="RootResolverError", mods=(), user=True),
+    ], props=P8, hints=lambda c: MATCH_AX + [ROOT(c.node) != NONE, PAR(ROOT(c.node)) == NONE]))
+    reg.methods[("Resolver", "glob")] = sp
